@@ -87,15 +87,18 @@ def check_mods(case, stats):
     spec = mod_spec(rename=bool(case.get("rename")))
     ff_text = F.render_ff(spec)
     for start in (1, 5):
-        for keymode in ("resid-1", "shifted"):
+        for keymode in ("resid-1", "shifted", "reversed"):
             rg = dict(n=n, edges=[[i, i + 1] for i in range(n - 1)], resids=[start + i for i in range(n)], resnames=names)
             for sel in mod_selections(names, start, rename=bool(case.get("rename"))):
                 if case["tier"] == "quick" and len(sel) == 2 and (start == 5) != (keymode == "shifted"):
                     continue
+                if keymode == "reversed" and (len(sel) > 1 or start == 5):
+                    continue
                 evals += 1
                 case1 = dict(kind="mods1", names=names, start=start, keymode=keymode, sel=[list(s) for s in sel], rename=bool(case.get("rename")))
                 mods_arg = [[f"{x[3] if len(x) == 4 else x[1]}{rg['resids'][x[0]]}", x[2]] for x in sel]
-                key_perm = [start - 1 + i for i in range(n)] if keymode == "resid-1" else [10 + 2 * i for i in range(n)]
+                key_perm = [start - 1 + i for i in range(n)] if keymode == "resid-1" else [10 + 2 * i for i in range(n)] if keymode == "shifted" else \
+                    [20 - i for i in range(n)]         # node keys running against the residue ids
                 try:
                     ff = H.parse_ff([("ff", ff_text)])
                     mm0, _ = H.run_processors(ff, H.build_resgraph(rg, key_perm=key_perm), mods=None)
